@@ -90,6 +90,23 @@ theorem history_binding (t : Transcript) (h h' : List Op) (hs : SameShape h h') 
     (run H t (h.take n)).1.digest ≠ (run H t (h'.take n)).1.digest ∨ PoseidonManyCollision H :=
   Proofs.Tr.history_binding H t h h' (Proofs.Tr.SameShape.sameKind hs) i hi hi' hm n hn
 
+/-- what "different messages" means for each kind: different field elements, different vectors,
+    different `u64` nonces (`read_uint64_from_prover` takes a `u64`, which embeds injectively) -/
+theorem message_ne_iff (op op' : Op) (hk : Op.sameKind op op') :
+    Op.message op ≠ Op.message op' ↔
+      match op, op' with
+      | .absorbFelt v, .absorbFelt v' => v ≠ v'
+      | .absorbVec vs, .absorbVec vs' => vs ≠ vs'
+      | .absorbU64 n, .absorbU64 n' => Felt.ofNat n ≠ Felt.ofNat n'
+      | _, _ => False := by
+  cases op <;> cases op' <;> first | exact False.elim hk | simp [Op.message]
+
+theorem u64_message_ne (n n' : ℕ) (hn : n < 2 ^ 64) (hn' : n' < 2 ^ 64) (hne : n ≠ n') :
+    Op.message (.absorbU64 n) ≠ Op.message (.absorbU64 n') := by
+  have h64 : 2 ^ 64 < P := by decide +kernel
+  simp only [Op.message, ne_eq, Option.some.injEq, List.cons.injEq, and_true]
+  exact fun h => hne (Proofs.Tr.ofNat_injOn (lt_trans hn h64) (lt_trans hn' h64) h)
+
 /-- Stronger, decomposed form: nothing is assumed about the start states or about what happened
     before the differing message (not even the same shape). -/
 theorem history_binding_any_prefix (t t' : Transcript) (pre pre' post post' : List Op) (op op' : Op)
